@@ -140,6 +140,13 @@ def native_run(entry, params, vectors, dropped_files, timeout_s=60, race=False, 
             if os.path.basename(h) in dropped_files:
                 continue
             repl[os.path.join(REPO, os.path.basename(h))] = h
+        # the repository's own test files are not needed for replay: overlay them with empty stubs so that
+        # replay neither depends on them compiling nor pays for compiling them
+        stub = os.path.join(tmp, "stub_test.go")
+        open(stub, "w").write("package twig\n")
+        for tfile in glob.glob(os.path.join(REPO, "*_test.go")):
+            if not os.path.basename(tfile).startswith("zz_"):
+                repl[tfile] = stub
         tf = os.path.join(tmp, "zz_replay_test.go")
         open(tf, "w").write(REPLAY_TEST.replace("__ENTRY__", entry))
         repl[os.path.join(REPO, "zz_replay_test.go")] = tf
